@@ -227,6 +227,69 @@ def dropOps (s : State) (hooks : List (Nat × (Nat × Step))) (c : Nat) : List O
       else [.drop c]
   | _, _ => [.drop c]
 
+/-! ### simultaneous arrivals on real OS threads (`manual herd threads=N rounds=R keys=M out=ok|err|mix`)
+
+The harness builds a separate instance (its own layer and inner service, so the state of the case proper is not
+touched) and, per round, releases N threads from a common start line; thread `i` does `svc.clone().call(req)` for
+key `1 + i % M`; no inner call can finish before ALL threads have returned from `call()`; then the inner calls
+finish (ok, or the inner error) and every thread polls its own future to completion. `gate=` / `ballast=` only
+decide where inside `call()` the threads are made to meet; they do not exist for the model.
+
+**What the model assumes.** One `Service::call` is ONE step (`stepS s (.arrive …)`): the look-up of the key and its
+registration are atomic — in the code one critical section under the map's lock. Under that assumption a parallel
+execution of the N `call()`s is some *sequence* of N arrivals, and for every such sequence
+`TR.Props.C11.simultaneous_arrivals_one_leader` says: exactly one inner call per key, everybody else is a waiter of
+it. So the model predicts the tallies of a round whatever the schedule was (`herdRound` uses the order of the
+thread numbers, the tallies do not depend on it), and `herdLine` is what the harness must print. The assumption
+itself — election is atomic — is not proved anywhere: the herd run *searches* real schedules for an execution that
+is not a sequence of whole `call()`s (seeded/C11-w3m2: look-up under a read lock, insertion under a write lock). -/
+
+/-- requests `cs` (caller, scripted inner call) for one key, in the order in which their `call()`s take effect -/
+def arrivals (key : Nat) (cs : List (Nat × Step)) : List Op := cs.map fun p => .arrive p.1 key p.2 false
+
+def herdKey (m i : Nat) : Nat := 1 + i % m
+
+/-- one round: thread `i` is caller `i+1`; all arrive, then (the inner calls being released) all poll -/
+def herdOps (n m : Nat) (o : Out) : List Op :=
+  ((List.range n).map fun i => Op.arrive (i + 1) (herdKey m i) ⟨0, o⟩ false) ++
+  ((List.range n).map fun i => Op.poll (i + 1))
+
+def herdRes (k : Nat) : Out → Res
+  | .ok => .ok k
+  | .err kd => .inner kd k
+  | _ => .panic
+
+/-- serial number of the first inner call for `key` in the log -/
+def firstCall (log : List CEv) (key : Nat) : Option Nat :=
+  log.findSome? fun e => match e with
+    | .innerCall _ key' k => if key' = key then some k else none
+    | _ => none
+
+/-- (inner calls started, requests that received the result of the first call of their key) of one round -/
+def herdTally (n m : Nat) (o : Out) : Nat × Nat :=
+  let log := (run (herdOps n m o)).log
+  ((log.filter fun e => match e with | .innerCall _ _ _ => true | _ => false).length,
+   (List.range n).countP fun i =>
+     match firstCall log (herdKey m i) with
+     | some k => log.contains (.result (i + 1) (herdRes k o))
+     | none => false)
+
+/-- (inner calls, requests served with their key's call) of `r` rounds of which `rErr` fail -/
+def herdTotals (n m r rErr : Nat) : Nat × Nat :=
+  let tOk := herdTally n m .ok
+  let tErr := herdTally n m (.err 1)
+  ((r - rErr) * tOk.1 + rErr * tErr.1, (r - rErr) * tOk.2 + rErr * tErr.2)
+
+/-- the line `manual herd …` must produce (same clamping of the arguments as in the harness) -/
+def herdLine (kv : Kv) : String :=
+  let n := min (max (kv.nat "threads" 4) 2) 32
+  let r := min (max (kv.nat "rounds" 100) 1) 5000000
+  let m := min (max (kv.nat "keys" 1) 1) n
+  let out := kv.str "out" "ok"
+  let rErr := if out == "err" then r else if out == "mix" then (r + 1) / 2 else 0
+  let t := herdTotals n m r rErr
+  s!"herd rounds={r} calls={r * n} inner={t.1} shared={t.2} anomalies=0"
+
 def machine : Machine where
   σ := State × List (Nat × (Nat × Step))
   init _ := (init, [])
@@ -237,6 +300,7 @@ def machine : Machine where
         match kv.optNat "c", kv.optNat "by" with
         | some c, some c2 => ((s, (c, (c2, (planOf kv).headD { lat := 0, out := .ok })) :: hooks), [])
         | _, _ => ((s, hooks), [])
+    | "manual" :: "herd" :: rest => ((s, hooks), [.raw (herdLine (parseKv rest))])
     | _ =>
     match parseOp ws with
     | some (.drop c) =>
